@@ -88,6 +88,12 @@ def gen_db(rng, n):
     cases = []
     for ci in range(n):
         names = [gen_name(rng) for _ in range(rng.randrange(1, 4))]
+        if ci % 5 == 0:
+            # names that are the file-name encoding of another name (its lower-case hex, with and without colons), or that
+            # end the way the store's file names do: every entity name is a name of its own
+            h = names[0].hex()
+            names += [h.encode(), ":".join(h[i:i + 2] for i in range(0, len(h), 2)).encode()][:rng.randrange(1, 3)] + [names[0] + b".entity"][:rng.randrange(2)]
+            names = [x for x in names if len(x) <= 100] or [b"ab", b"6162"]
         last = {}
         ops = []
         for _ in range(rng.randrange(2, 14)):
